@@ -216,7 +216,7 @@ EXTRA = {
     "C09": " Wave 6: the application is also hosted inside a switch_ branch or a map_ child that starts mid-run while its inputs already hold values (inlined vs nested inside that child); known finding F28 covers sub-graphs that depend on modified() in the child's start cycle.",
     "C10": " Wave 6: map_ over lists (fixed size, and dynamic lists that grow to 70 elements with holes) compared per index with the function run alone; map_ with an explicit __keys__ key set, where a key may be live before / without its element and the function has a start-active node (the function alone is run per lifetime from the appearance time).",
     "C12": " Wave 6: branches that end in a reduce over a held dictionary (a re-pointing forwarding terminal), compared by state with the reduce run alone from the switch time while the dictionary grows and shrinks.",
-    "C14": " Wave 6: two more kinds of live dynamic children - map_ over a dynamic list and the ordered (left-fold) reduce whose chain is rebuilt on every length change; found and fixed F26, recorded F27.",
+    "C14": " Wave 6: two more kinds of live dynamic children - map_ over a dynamic list and the ordered (left-fold) reduce whose chain is rebuilt on every length change; and mesh_ instances; found and fixed F26 and F31, recorded F27.",
     "C15": " Wave 6: the library's own lifted kernels (floordiv_, mod_) under node-level error capture, dividing by a scripted divisor that hits 0, optionally read passively.",
     "C19": " Wave 6: families with variadic overloads; the independent matcher checks every trailing argument against the tail pattern under the bindings made by the fixed parameters (match / no-match / winner / output type; the relative rank of variadic overloads is not asserted).",
     "C20": " Wave 6: a recorded top-level set / dictionary whose first tick carries no element must become valid in the same cycle when replayed and when re-applied through apply_delta.",
